@@ -36,50 +36,67 @@ Definition period_reply (r : reply) : pcode * bool :=
   | RBulk _ | RStatus _ => (Unknown, true)    (* resp.(int64) fails: ErrUnknownCode *)
   end.
 
+(* NewPeriodLimit(period, quota, store, prefix, [Align()]) + the zone offset (seconds east of
+   UTC) of the process: calcExpireSeconds reads time.Now() and its zone when aligned *)
+Record pcfg := mkPC { pquota : Z; pperiod : Z; palign : bool; poffset : Z }.
+
+(* calcExpireSeconds at wall-clock time now_ms (the model takes the caller's wall clock to be
+   the store's clock) *)
+Definition window (c : pcfg) (now_ms : Z) : Z :=
+  if palign c then pperiod c - ((now_ms / 1000 + poffset c) mod pperiod c) else pperiod c.
+
 Record pstate := mkP { pstore : rstate; pdown : bool }.
 
 Inductive pop :=
-| PTake (key : bulk)            (* some caller's TakeCtx on keyPrefix+key *)
+| PTake (key : bulk) (brk : bool)
+      (* some caller's TakeCtx on keyPrefix+key; [brk] = go-zero's redis circuit breaker let the
+         command through (oracle: false iff the call failed with breaker.ErrServiceUnavailable) *)
 | PAdvance (ms : Z)
 | PDown | PUp                   (* the store becomes unreachable / reachable *)
-| PPoke (key : bulk) (v : bulk).  (* a foreign client overwrites the counter (no TTL) *)
+| PPoke (key : bulk) (v : bulk) (* a foreign client overwrites the counter (no TTL) *)
+| PTtl (key : bulk).            (* observe the key's remaining time to live *)
 
-Definition pobs := option (pcode * bool).
+Inductive pobs :=
+| PAns (c : pcode) (error : bool)
+| PTtlIs (t : option (option Z))      (* None: absent; Some None: no expiry; Some (Some ms) *)
+| PNone.
 
-Definition take (quota period : Z) (key : bulk) (s : pstate) : pstate * (pcode * bool) :=
-  if pdown s then (s, (Unknown, true))
-  else let '(r, st') := eval Lua_period.script [key] [BInt quota; BInt period] (pstore s) in
+Definition take (c : pcfg) (key : bulk) (brk : bool) (s : pstate) : pstate * (pcode * bool) :=
+  if (pdown s || negb brk)%bool then (s, (Unknown, true))     (* the command never reaches Redis *)
+  else let '(r, st') := eval Lua_period.script [key]
+                          [BInt (pquota c); BInt (window c (rnow (pstore s)))] (pstore s) in
        (mkP st' false, period_reply r).
 
-Definition pstep (quota period : Z) (s : pstate) (o : pop) : pstate * pobs :=
+Definition pstep (c : pcfg) (s : pstate) (o : pop) : pstate * pobs :=
   match o with
-  | PTake key => let '(s', r) := take quota period key s in (s', Some r)
-  | PAdvance ms => (mkP (advance (pstore s) ms) (pdown s), None)
-  | PDown => (mkP (pstore s) true, None)
-  | PUp => (mkP (pstore s) false, None)
-  | PPoke key v => (if pdown s then s else mkP (store_put (pstore s) key (mkEntry v None)) false, None)
+  | PTake key brk => let '(s', (code, e)) := take c key brk s in (s', PAns code e)
+  | PAdvance ms => (mkP (advance (pstore s) ms) (pdown s), PNone)
+  | PDown => (mkP (pstore s) true, PNone)
+  | PUp => (mkP (pstore s) false, PNone)
+  | PPoke key v => (if pdown s then s else mkP (store_put (pstore s) key (mkEntry v None)) false, PNone)
+  | PTtl key => (s, PTtlIs (pttl (pstore s) key))
   end.
 
-Fixpoint prun (q p : Z) (s : pstate) (ops : list pop) : list pobs :=
+Fixpoint prun (c : pcfg) (s : pstate) (ops : list pop) : list pobs :=
   match ops with
   | [] => []
-  | o :: ops' => let '(s', r) := pstep q p s o in r :: prun q p s' ops'
+  | o :: ops' => let '(s', r) := pstep c s o in r :: prun c s' ops'
   end.
 
-Fixpoint pfinal (q p : Z) (s : pstate) (ops : list pop) : pstate :=
+Fixpoint pfinal (c : pcfg) (s : pstate) (ops : list pop) : pstate :=
   match ops with
   | [] => s
-  | o :: ops' => pfinal q p (fst (pstep q p s o)) ops'
+  | o :: ops' => pfinal c (fst (pstep c s o)) ops'
   end.
 
-Definition pinit : pstate := mkP (mkR 0 []) false.
+Definition pinit (incl : bool) (base_ms : Z) : pstate := mkP (mkR base_ms [] incl) false.
 
 (* ---- the period specification: per key a counter and the end of its period *)
 Definition code_of (i quota : Z) : pcode :=
   if i <? quota then Allowed else if i =? quota then HitQuota else OverQuota.
 
-Inductive pcell := PCount (c : Z) (until : option Z) | PGarbage.
-Record pspec := mkPS { sp_now : Z; sp_down : bool; sp_cells : list (bulk * pcell) }.
+Inductive pcell := PCount (c : Z) (until : option Z) | PGarbage (until : option Z).
+Record pspec := mkPS { sp_now : Z; sp_down : bool; sp_cells : list (bulk * pcell); sp_incl : bool }.
 
 Fixpoint cell_find (k : bulk) (l : list (bulk * pcell)) : option pcell :=
   match l with
@@ -92,37 +109,56 @@ Fixpoint cell_put (k : bulk) (c : pcell) (l : list (bulk * pcell)) : list (bulk 
   | (k', c') :: l' => if bulk_eqb k k' then (k, c) :: l' else (k', c') :: cell_put k c l'
   end.
 
-Definition sp_pstep (quota period : Z) (a : pspec) (o : pop) : pspec * pobs :=
+Definition cell_until (c : pcell) : option Z := match c with PCount _ u | PGarbage u => u end.
+
+(* the cell every caller sees now: periods that have ended are gone *)
+Definition cell_seen (a : pspec) (k : bulk) : option pcell :=
+  match cell_find k (sp_cells a) with
+  | Some c => match cell_until c with
+              | Some t => if before (sp_incl a) (sp_now a) t then Some c else None
+              | None => Some c
+              end
+  | None => None
+  end.
+
+Definition sp_with (a : pspec) (cells : list (bulk * pcell)) : pspec :=
+  mkPS (sp_now a) (sp_down a) cells (sp_incl a).
+
+(* for windows >= 1 s *)
+Definition sp_pstep (c : pcfg) (a : pspec) (o : pop) : pspec * pobs :=
   match o with
-  | PTake key =>
-    if sp_down a then (a, Some (Unknown, true)) else
-    let fresh := mkPS (sp_now a) false (cell_put key (PCount 1 (Some (sp_now a + period * 1000))) (sp_cells a)) in
-    match cell_find key (sp_cells a) with
-    | Some PGarbage => (a, Some (Unknown, true))
-    | Some (PCount c (Some t)) =>
-      if sp_now a <? t
-      then (mkPS (sp_now a) false (cell_put key (PCount (c + 1) (Some t)) (sp_cells a)), Some (code_of (c + 1) quota, false))
-      else (fresh, Some (code_of 1 quota, false))
-    | Some (PCount c None) =>
-      (mkPS (sp_now a) false (cell_put key (PCount (c + 1) None) (sp_cells a)), Some (code_of (c + 1) quota, false))
-    | None => (fresh, Some (code_of 1 quota, false))
+  | PTake key brk =>
+    if (sp_down a || negb brk)%bool then (a, PAns Unknown true) else
+    let fresh_until := Some (sp_now a + window c (sp_now a) * 1000) in
+    match cell_seen a key with
+    | Some (PGarbage _) => (a, PAns Unknown true)       (* INCRBY on a non-integer: error *)
+    | Some (PCount n u) =>
+      let u' := if n + 1 =? 1 then fresh_until else u in
+      (sp_with a (cell_put key (PCount (n + 1) u') (sp_cells a)), PAns (code_of (n + 1) (pquota c)) false)
+    | None =>
+      (sp_with a (cell_put key (PCount 1 fresh_until) (sp_cells a)), PAns (code_of 1 (pquota c)) false)
     end
-  | PAdvance ms => (mkPS (sp_now a + ms) (sp_down a) (sp_cells a), None)
-  | PDown => (mkPS (sp_now a) true (sp_cells a), None)
-  | PUp => (mkPS (sp_now a) false (sp_cells a), None)
+  | PAdvance ms => (mkPS (sp_now a + ms) (sp_down a) (sp_cells a) (sp_incl a), PNone)
+  | PDown => (mkPS (sp_now a) true (sp_cells a) (sp_incl a), PNone)
+  | PUp => (mkPS (sp_now a) false (sp_cells a) (sp_incl a), PNone)
   | PPoke key v =>
     (if sp_down a then a
-     else mkPS (sp_now a) false
-            (cell_put key (match v with BInt z => PCount z None | BStr _ => PGarbage end) (sp_cells a)), None)
+     else sp_with a (cell_put key (match v with BInt z => PCount z None | BStr _ => PGarbage None end)
+                              (sp_cells a)), PNone)
+  | PTtl key =>
+    (a, PTtlIs match cell_seen a key with
+               | Some cl => Some (match cell_until cl with Some t => Some (t - sp_now a) | None => None end)
+               | None => None
+               end)
   end.
 
-Fixpoint sp_prun (q p : Z) (a : pspec) (ops : list pop) : list pobs :=
+Fixpoint sp_prun (c : pcfg) (a : pspec) (ops : list pop) : list pobs :=
   match ops with
   | [] => []
-  | o :: ops' => let '(a', r) := sp_pstep q p a o in r :: sp_prun q p a' ops'
+  | o :: ops' => let '(a', r) := sp_pstep c a o in r :: sp_prun c a' ops'
   end.
 
-Definition sp_pinit : pspec := mkPS 0 false [].
+Definition sp_pinit (incl : bool) (base_ms : Z) : pspec := mkPS base_ms false [] incl.
 
 (* ================================================================== TokenLimiter *)
 Record tcfg := mkCfg { rate : Z; burst : Z; ktokens : bulk; kts : bulk }.
@@ -134,8 +170,9 @@ Record tinst := mkT { alive : bool;       (* redisAlive == 1 *)
 Record tstate := mkTS { tstore : rstate; tdown : bool; tinsts : list tinst }.
 
 Inductive top :=
-| TAllow (i : nat) (now_ms : Z) (n : Z) (rescue : bool)
-      (* instance i: AllowN(now, n); [rescue] = what the in-process limiter answers if asked *)
+| TAllow (i : nat) (now_ms : Z) (n : Z) (rescue : bool) (brk : bool)
+      (* instance i: AllowN(now, n); [rescue] = what the in-process limiter answers if asked;
+         [brk] = the redis circuit breaker lets the command through if one is sent *)
 | TAdvance (ms : Z)
 | TDown | TUp
 | TPing (i : nat).     (* instance i's monitor goroutine gets its next 100 ms tick *)
@@ -149,7 +186,7 @@ Definition start_monitor (t : tinst) : tinst :=
 
 Definition unix_s (now_ms : Z) : Z := now_ms / 1000.      (* now.Unix() *)
 
-(* reserveN *)
+(* reserveN; [down] = the command would not reach Redis (store unreachable or breaker open) *)
 Definition reserve (c : tcfg) (t : tinst) (now_ms n : Z) (rescue : bool) (st : rstate) (down : bool)
   : rstate * tinst * tobs :=
   if negb (alive t) then (st, t, TR rescue false false)
@@ -174,9 +211,9 @@ Fixpoint set_nth {A} (i : nat) (x : A) (l : list A) : list A :=
 
 Definition tstep (c : tcfg) (s : tstate) (o : top) : tstate * tobs :=
   match o with
-  | TAllow i now n rescue =>
+  | TAllow i now n rescue brk =>
     match nth_error (tinsts s) i with
-    | Some t => let '(st', t', r) := reserve c t now n rescue (tstore s) (tdown s) in
+    | Some t => let '(st', t', r) := reserve c t now n rescue (tstore s) (tdown s || negb brk)%bool in
                 (mkTS st' (tdown s) (set_nth i t' (tinsts s)), r)
     | None => (s, TU)
     end
@@ -204,8 +241,8 @@ Fixpoint tfinal (c : tcfg) (s : tstate) (ops : list top) : tstate :=
   | o :: ops' => tfinal c (fst (tstep c s o)) ops'
   end.
 
-Definition tinit (base_ms : Z) (n : nat) : tstate :=
-  mkTS (mkR base_ms []) false (repeat (mkT true false) n).
+Definition tinit (incl : bool) (base_ms : Z) (n : nat) : tstate :=
+  mkTS (mkR base_ms [] incl) false (repeat (mkT true false) n).
 
 (* ---- the ideal token bucket: [btokens] tokens at whole second [bsec] *)
 Record bucket := mkB { btokens : Z; bsec : Z }.
@@ -222,16 +259,16 @@ Record tspec := mkSp { sp_bucket : bucket; sp_clock : Z; sp_tdown : bool; sp_ins
 
 Definition sp_tstep (c : tcfg) (a : tspec) (o : top) : tspec * tobs :=
   match o with
-  | TAllow i now n rescue =>
+  | TAllow i now n rescue brk =>
     match nth_error (sp_insts a) i with
     | Some t =>
       if negb (alive t) then (a, TR rescue false false)
-      else if sp_tdown a then
+      else if (sp_tdown a || negb brk)%bool then
         let t' := start_monitor t in
-        (mkSp (sp_bucket a) (sp_clock a) true (set_nth i t' (sp_insts a)), TR rescue (alive t') false)
+        (mkSp (sp_bucket a) (sp_clock a) (sp_tdown a) (set_nth i t' (sp_insts a)), TR rescue (alive t') false)
       else
         let '(b', g) := bucket_take (rate c) (burst c) (sp_bucket a) (unix_s now) n in
-        (mkSp b' (sp_clock a) false (set_nth i t (sp_insts a)), TR g true true)
+        (mkSp b' (sp_clock a) (sp_tdown a) (set_nth i t (sp_insts a)), TR g true true)
     | None => (a, TU)
     end
   | TAdvance ms => (mkSp (sp_bucket a) (sp_clock a + ms) (sp_tdown a) (sp_insts a), TU)
@@ -257,7 +294,7 @@ Fixpoint sp_trun (c : tcfg) (a : tspec) (ops : list top) : list tobs :=
 Fixpoint twf (clock : Z) (ops : list top) : bool :=
   match ops with
   | [] => true
-  | TAllow _ now n _ :: ops' => (now =? clock) && (0 <=? n) && twf clock ops'
+  | TAllow _ now n _ _ :: ops' => (now =? clock) && (0 <=? n) && twf clock ops'
   | TAdvance ms :: ops' => (0 <=? ms) && twf (clock + ms) ops'
   | _ :: ops' => twf clock ops'
   end.
@@ -265,7 +302,7 @@ Fixpoint twf (clock : Z) (ops : list top) : bool :=
 (* tokens granted by the shared bucket (script) in a history *)
 Fixpoint granted_by_script (ops : list top) (rs : list tobs) : Z :=
   match ops, rs with
-  | TAllow _ _ n _ :: ops', TR true _ true :: rs' => n + granted_by_script ops' rs'
+  | TAllow _ _ n _ _ :: ops', TR true _ true :: rs' => n + granted_by_script ops' rs'
   | _ :: ops', _ :: rs' => granted_by_script ops' rs'
   | _, _ => 0
   end.
